@@ -135,6 +135,10 @@ def run(ck):
     for c in cases:
         o = r1[c["id"]]
         if "end" in o:
+            # (a Clone() copies the inputs with Copy(), which makes immutable containers mutable: a program with such an input is another
+            #  program in the clone - its counter trace is validated against the rule above, its result is not compared with the original's)
+            if c.get("clone") and '"imm": true' in json.dumps(c.get("inputs", [])):
+                continue
             per.setdefault(c["pid"], []).append((c["budget"], o))
     mono = 0
     for pid, lst in per.items():
